@@ -65,6 +65,16 @@ def check_splice(ctx: Ctx, fi: FuncInfo):
     ctx.check(size_ok, "MP-splice-guards", fi, "spliced only if not larger", f"len({base}.gates) <= len({sec}.gates)", f"the splice is not control-dependent on the size comparison (guards: {facts})", sp)
     qs_ok = any((not pol) and f"{base}.used_qubits -" in f and "!= set()" in f for f, pol in facts) or any(pol and "issubset" in f and f"{base}.used_qubits" in f for f, pol in facts)
     ctx.check(qs_ok, "MP-splice-guards", fi, "spliced only if it stays on the section's qubits", f"{base}.used_qubits - section_qubits == set()", f"the splice is not control-dependent on the qubit-set comparison (guards: {facts}): a re-synthesis that allocates a new qubit would be spliced into a circuit that does not have it", sp)
+    # a definition satisfied by re-pointing a name (no gate emitted) must not be spliced: the optimizer looks at
+    # qc_sec.gates only
+    remap_ok = False
+    for e, pol in guard_facts(fi, sp):
+        t = norm(e)
+        if (not pol) and f"{base}.qubit_map" in t and "enumerate(symbols)" in t.replace(" ", "").replace("enumerate(symbols)", "enumerate(symbols)") and "!=" in t:
+            remap_ok = True
+        if pol and f"{base}.qubit_map" in t and "==" in t and "all(" in t:
+            remap_ok = True
+    ctx.check(remap_ok, "MP-splice-guards", fi, "spliced only if every qubit name still sits on its own qubit", f"any({base}.qubit_map.get(s) != i for i, s in enumerate(symbols)) -> skip", "the splice is not guarded against re-synthesis by relabelling: the compiler satisfies `q0 = q1` by pointing the name q0 at q1's qubit without emitting a gate, and only the gate list is spliced, so a section that permutes qubits (a swap made of three CX) is replaced by nothing", sp)
     # section_qubits is the set of wires of the section's gates
     sq = None
     for e, pol in guard_facts(fi, sp):
